@@ -554,4 +554,13 @@ def main():
 
 
 if __name__ == '__main__':
-    sys.exit(main())
+    try:
+        rc = main()
+    except SystemExit:
+        raise
+    except BaseException as e:   # an internal error of the machinery is never an alarm
+        import traceback
+        traceback.print_exc()
+        say('UNDECIDED internal error of the checker: %r' % (e,))
+        rc = 2
+    sys.exit(rc)
